@@ -10,10 +10,6 @@ open ChessVerif Board
 /-- the legal en-passant captures of the rule-book successor (target recorded unconditionally). -/
 theorem d2a_caps : Rules.legalEpCaptures (Rules.applyCore (abs d2a) (decodeMove e2e4)) = [] := by decide +kernel
 theorem d2b_caps : Rules.legalEpCaptures (Rules.applyCore (abs d2b) (decodeMove e2e4)) = [] := by decide +kernel
-theorem pin_caps : Rules.legalEpCaptures (Rules.applyCore (abs pin) (decodeMove e2e4)) = [] := by decide +kernel
 theorem okp_caps : Rules.legalEpCaptures (Rules.applyCore (abs okp) (decodeMove e2e4)) = [⟨27, 20, none⟩] := by
   decide +kernel
-theorem blk_caps : Rules.legalEpCaptures (Rules.applyCore (abs blk) (decodeMove d7d5)) = [⟨36, 43, none⟩] := by
-  decide +kernel
-
 end ChessVerif.EpTarget.Examples
